@@ -85,14 +85,25 @@ func (t *Trie[K, V]) Contains(key K) bool {
 // Put inserts a new node into the symbol table, overwriting the old value
 // with the new one if the key is already in the symbol table.
 func (t *Trie[K, V]) Put(key K, val V) {
-	if !t.Contains(key) {
-		t.mu.Lock()
-		t.n++
-		t.mu.Unlock()
-	}
+	// The membership test, the counter update and the insertion have to happen
+	// under the same lock acquisition, otherwise two concurrent calls inserting
+	// the same new key both count it.
 	t.mu.Lock()
+	defer t.mu.Unlock()
+
+	if !t.contains(key) {
+		t.n++
+	}
 	t.root = t.root.put(t, key, val, 0, true)
-	t.mu.Unlock()
+}
+
+// contains reports if the key is stored in the trie. The caller must hold the lock.
+func (t *Trie[K, V]) contains(key K) bool {
+	if len(key) == 0 {
+		return false
+	}
+	x, err := t.root.get(key, 0)
+	return x != nil && err == nil && x.isValid
 }
 
 func (n *node[K, V]) put(t *Trie[K, V], key K, val V, d int, isValid bool) *node[K, V] {
